@@ -56,6 +56,11 @@ pub fn families(a: &Args, rng: &mut Rng) -> Vec<Fam> {
     for t in quotient_family(&pool) {
         v.push(Fam { t, fam: "derivative-as-operand" });
     }
+    for (i, t) in shared_subterm_family(&pool).into_iter().enumerate() {
+        if a.thorough() || i % 2 == (a.seed as usize) % 2 {
+            v.push(Fam { t, fam: "shared-subterm" });
+        }
+    }
     for t in adjacent_range_family(&pool) {
         v.push(Fam { t, fam: "adjacent-ranges" });
     }
